@@ -309,10 +309,10 @@ func checkMain(args []string) int {
 }
 
 // thoroughBudget: number of units explored by the thorough tier per property (chosen so that a run takes
-// roughly 15 to 40 minutes on 16 cores; GOSYM_THOROUGH_UNITS overrides).
+// roughly 10 to 30 minutes on 16 cores; GOSYM_THOROUGH_UNITS overrides).
 var thoroughBudget = map[string]int{
-	"C01": 20000, "C15": 20000, "C03": 28000, "C04": 28000, "C05": 24000, "C07": 8000, "C18": 10000, "C20": 6000,
-	"C02": 4000, "C08": 3000, "C06": 1500, "C17": 6000, "C16": 8000, "C09": 2800, "C12": 1300, "C13": 1400, "C10": 1200,
+	"C01": 16000, "C15": 16000, "C03": 24000, "C04": 24000, "C05": 21000, "C07": 6000, "C18": 8000, "C20": 5000,
+	"C02": 3200, "C08": 2000, "C06": 800, "C17": 4000, "C16": 8000, "C09": 2000, "C12": 800, "C13": 600, "C10": 400, "C11": 50,
 }
 
 var runInfo map[string]any
@@ -621,8 +621,14 @@ func report(p *propSpec, tier string, seed int, results []UnitResult, t0 time.Ti
 		exit = 1
 	}
 	decidedUnits := st.units - st.skipped - st.broken
-	if decidedUnits > 0 && st.undecidedUnits*20 > decidedUnits {
-		broken = append(broken, fmt.Sprintf("%d of %d units undecided (more than 5%%)", st.undecidedUnits, decidedUnits))
+	// more than 5% (quick) / 15% (thorough: fewer and much larger units) undecided units: the run claims too
+	// little to be reported as a pass
+	limitPct := 5
+	if tier == "thorough" {
+		limitPct = 15
+	}
+	if decidedUnits > 0 && st.undecidedUnits*100 > decidedUnits*limitPct {
+		broken = append(broken, fmt.Sprintf("%d of %d units undecided (more than %d%%)", st.undecidedUnits, decidedUnits, limitPct))
 	}
 	if decidedUnits == 0 {
 		broken = append(broken, "no unit was decided")
